@@ -167,6 +167,29 @@ def large_instances(ck):
     return recs
 
 
+
+def demo_mutants(recs, verdicts):
+    """Corrupted copies of records judged ok (flip a literal, drop a clause, shift the declared count)."""
+    import copy
+    out = []
+    seen = set()
+    for r in recs:
+        if verdicts.get(r["id"]) != "ok" or r.get("cls") != "CNF" or r["outcome"] != "ok" or "cand" in r:
+            continue
+        if r["fam"] in seen or len(r.get("clauses", [])) < 2 or not r["clauses"][0] or r["nvars"] > 10:
+            continue
+        seen.add(r["fam"])
+        a = copy.deepcopy(r)
+        a["clauses"][0][0] = -a["clauses"][0][0]
+        out.append(("%s:flip_literal" % r["fam"], a))
+        b = copy.deepcopy(r)
+        b["clauses"] = b["clauses"][1:]
+        out.append(("%s:drop_clause" % r["fam"], b))
+        if len(seen) >= 6:
+            break
+    return out
+
+
 def main(argv=None):
     ck = common.Check("C01", argv)
     common.setup_repo_import()
@@ -179,7 +202,8 @@ def main(argv=None):
     ck.count("large_scope_instances", len(big))
     ck.count("assignments_evaluated",
              sum(2 ** r["nvars"] for r in recs) + sum(len(r.get("cand", [])) for r in big))
-    ck.judge("JudgeFamilies", recs + big, cfg="Judge.cfg", weight=gen.weight)
+    verdicts = ck.judge("JudgeFamilies", recs + big, cfg="Judge.cfg", weight=gen.weight)
+    ck.binding_demo("JudgeFamilies", demo_mutants(recs, verdicts or {}), cfg="Judge.cfg")
     ck.assumptions += [
         "identifiers are bound to named variables through the digits of their labels; "
         "groups are numbered by first appearance",
